@@ -357,11 +357,15 @@ func ConvertRequestID(requestIDStr string) (tmbytes.HexBytes, error) {
 
 // GenerateRequestContextID generates a unique ID for the request context from the specified params
 func GenerateRequestContextID(txHash []byte, msgIndex int64) tmbytes.HexBytes {
+	// copy the hash: appending to the caller's slice would alias its spare capacity
+	hash := make([]byte, len(txHash))
+	copy(hash, txHash)
+
 	bz := make([]byte, 8)
 
 	binary.BigEndian.PutUint64(bz, uint64(msgIndex))
 
-	return append(txHash, bz...)
+	return append(hash, bz...)
 }
 
 // SplitRequestContextID splits the given contextID to txHash and msgIndex
